@@ -13,4 +13,10 @@ theorem td_quantile_guard_eq (q : α) :
   unfold td_quantile_guard
   by_cases a : 0 ≤ q <;> by_cases b : q ≤ 1 <;> simp [h0, h1, a, b]
 
+/-- the NaN assertion of the public `cdf`: it panics exactly on a NaN argument (the driver glue of the model does the same
+test before `TDigest.cdf` is asked) -/
+theorem td_cdf_guard_eq (x : α) : td_cdf_guard x = if KOps.isNan x = true then Flow.panic else Flow.ret true := by
+  unfold td_cdf_guard
+  cases KOps.isNan x <;> simp
+
 end Pds.KernelTie
